@@ -1,7 +1,7 @@
 (* run_cmd : the single entry point of the extracted model. A command is
    (L (A code :: args)); decoding and encoding are Gallina. *)
 From Coq Require Import List ZArith NArith Bool.
-From BS Require Import Base.Sexp Base.Types Base.Reader Model.Registry Model.SmartQuotes Model.Attrs Model.Heap Model.Edit Model.Build Model.Iter Spec.Tree Spec.BuildSpec.
+From BS Require Import Base.Sexp Base.Types Base.Reader Model.Registry Model.SmartQuotes Model.Attrs Model.Heap Model.Edit Model.Build Model.Iter Spec.Tree Spec.BuildSpec Spec.ListEdit.
 Import ListNotations.
 Open Scope Z_scope.
 
@@ -198,6 +198,21 @@ Definition cmd_build_refines (args : list sexp) : sexp :=
   | c :: evs :: _ => sbool (build_refines_b (g_cfg c) (glist g_event evs))
   | _ => A (-1)
   end.
+(* (13 kind n cs K): the list-level models of Spec/ListEdit.v — kind 0 insert(n = position),
+   4 insert_before(n = self), 5 insert_after, 7 replace_with; 100+kind gives the documented effect *)
+Definition cmd_listedit (args : list sexp) : sexp :=
+  match args with
+  | k :: n :: cs :: K :: _ =>
+      let n := gnat n in let cs := glist gnat cs in let K := glist gnat K in
+      slist snat
+        (match gZ k with
+         | 0 => kmove_all n cs K | 4 => kbefore n cs K | 5 => kafter n cs K | 7 => kreplace n cs K
+         | 100 => splice_spec n cs K | 104 => before_spec n cs K | 105 => after_spec n cs K
+         | 107 => replace_spec n cs K
+         | _ => []
+         end)
+  | _ => A (-1)
+  end.
 (* (10 cfg events ops) -> (build-state (status state)...) *)
 Definition cmd_history (args : list sexp) : sexp :=
   match args with
@@ -220,6 +235,7 @@ Definition run_cmd (c : sexp) : sexp :=
   | L (A code :: args) =>
       match code with
       | 10 => cmd_history args
+      | 13 => cmd_listedit args
       | 30 => cmd_build args
       | 31 => cmd_build_refines args
       | 20 => cmd_c20_lookup args
